@@ -318,9 +318,11 @@ fn cons_plan(vs: u64, quick: bool) -> Vec<(u32, bool)> {
     let mut rng = Rng::new(run_seed(vs, "C16", "cons-n", 0));
     let sampled = if quick { 160 } else { 3000 };
     for _ in 0..sampled {
-        let n = match rng.below(4) {
+        let n = match rng.below(6) {
             0 => rng.range(1177, 2048) as u32,
             1 => rng.range(65, 400) as u32,
+            // beyond 2304 workers the list ends in empty scopes at the terminal itself
+            2 => rng.range(2049, 6000) as u32,
             _ => rng.range(dense as u64 + 1, 2048) as u32,
         };
         ns.push((n, rng.chance(2, 3)));
@@ -596,6 +598,9 @@ pub fn case(batch: &str, tier: &str, i: u64) -> CaseOut {
     probe("global_states_seen", c.res.states as u64);
     if c.n > 1176 {
         probe("conservation_n_gt_1176", 1);
+    }
+    if c.n > 2304 {
+        probe("conservation_n_gt_2304_scopes_at_the_terminal", 1);
     }
     if c.run.execs > 1 {
         probe("multi_executor_runs", 1);
